@@ -411,6 +411,14 @@ MUTATIONS += [
     dict(id="C01-restore-coalesce-from-file", prop="C01", file=RSF, old="           && self.from_file.is_none() //", new="           && other.from_file.is_none() //"),
 ]
 
+# ---- C05 check_cache_files
+CKF = "crates/core/src/commands/check.rs"
+MUTATIONS += [
+    dict(id="C05-cache-mismatch-ignored", prop="C05", file=CKF, old="                (Ok(Some(data_cached)), Ok(data)) if data_cached != data => {\n                    collector.add_error(CheckError::CacheMismatch { id, file_type });\n                }\n", new=""),
+    dict(id="C05-cache-mismatch-only-length", prop="C05", file=CKF, old="if data_cached != data =>", new="if data_cached.len() != data.len() =>"),
+    dict(id="C05-cache-backend-error-is-warning", prop="C05", file=CKF, old="                (_, Err(err)) => {\n                    collector.add_error(CheckError::ErrorReadingFile {", new="                (_, Err(err)) => {\n                    collector.add_warn(CheckError::ErrorReadingFile {"),
+]
+
 HARMLESS = [
     dict(id="H-C05-trees-symlink-continue", prop="C05", file=CK, old="        for node in tree.nodes {\n            match node.node_type {", new="        for node in tree.nodes {\n            if node.node_type == NodeType::Symlink {\n                continue;\n            }\n            match node.node_type {"),
     # independent statements reordered
